@@ -13,7 +13,7 @@ def pick(pred):
     return c20.execute({"id": "good-" + c["kind"], "cfg": c, "seed": 7})
 ex = pick(lambda c: c["kind"] == "exact" and c["R"] == 4 and c["M"] == 3 and c["b"] == 0 and c["s"] == 2 and c["p"] == [2, 4, 1, 3])
 ge = pick(lambda c: c["kind"] == "generic" and c["R"] == 5 and c["M"] == 2 and c["flavour"] == "normal" and c["prof"] == 1)
-me = pick(lambda c: c["kind"] == "metric" and c["op"] == "correlation" and c["shape"] == [3, 4] and c["axis"] == 1)
+me = pick(lambda c: c["kind"] == "metric" and c["op"] == "correlation" and c["shape"] == [3, 4] and c["axis"] == 1 and c["off"] == 0)
 le = pick(lambda c: c["kind"] == "lev" and c["rows"] == 5 and c["flavour"] == "lowrank")
 lx = pick(lambda c: c["kind"] == "levexact" and len(c["idxs"]) == 3 and c["pad"] == 2)
 mg = pick(lambda c: c["kind"] == "exact" and c["R"] == 3 and c["M"] == 2 and c["b"] == 0 and c["s"] == 6 and c["p"] == [2, 3, 1])
@@ -56,6 +56,16 @@ mut(z1, "zero-cong-silent", "CongZeroColumnNotRejected", lambda e: e["cong"][0].
 mut(z1, "zero-permute-silent", "PermuteZeroColumnNotRejected", lambda e: e["permute"][0].update(raised=False, exc="", perm=[0, 1, 2]))
 mut(z2, "zero-row-value", "CorrMax", lambda e: [r.__setitem__("val", r["val"] + 9) for r in e["corr"] if r["method"] == "max_score" and not r["swap"]])
 mut(z2, "zero-row-raised", "CorrRaised", lambda e: e["corr"][5].update(raised=True, exc="ValueError"))
+def optrec(e, **kw):
+    return next(r for r in e["opts"]["corr"] if all(r[k] == v for k, v in kw.items()))
+mut(ex, "opt-tol-not-zero", "CorrTolNotExactlyZero", lambda e: optrec(e, tol=1, dt="f32", method="max_score").update(zero=False, val=0))
+mut(ex, "opt-mixed-cong", "CongValue", lambda e: e["opts"]["cong"][0].__setitem__("val", e["opts"]["cong"][0]["val"] - 40000))
+mut(ex, "opt-mixed-permute", "PermuteFactors", lambda e: e["opts"]["permute"][0].__setitem__("eqf", False))
+mut(ex, "opt-missing", "OptForms", lambda e: e["opts"]["corr"].pop())
+mo = pick(lambda c: c["kind"] == "metric" and c["op"] == "correlation" and c["shape"] == [3, 4] and c["axis"] == 1 and c["off"] == 40)
+mo["id"] = "good-metric-offset"
+evs.append(mo); good.append(mo)
+mut(mo, "metric-offset-val", "Value", lambda e: e["out"]["vals"].__setitem__(1, e["out"]["vals"][1] + 30))
 mut(ge, "gen-val", "CongValueOfPerm", lambda e: e["cong"][0].__setitem__("val", e["cong"][0]["val"] + 60))
 mut(ge, "gen-corr", "CorrStacked", lambda e: e["corr"].__setitem__("stacked", e["corr"]["stacked"] + 10))
 mut(ge, "gen-corravg", "CorrAvg", lambda e: e["corr"].__setitem__("avg_score", e["corr"]["avg_score"] + 10))
@@ -68,12 +78,13 @@ mut(me, "metric-nan", "Finite", lambda e: e["out"]["vals"].__setitem__(2, 200000
 mut(le, "lev-sum", "SumsToOne", lambda e: e["out"]["vals"].__setitem__(0, e["out"]["vals"][0] + 100))
 mut(le, "lev-neg", "NonNegative", lambda e: e["out"].__setitem__("nneg", False))
 def lev2(e):
-    v = e["out"]["vals"]; v[0] += 50; v[1] -= 50
+    v = e["out"]["vals"]; i, j = sorted(range(len(v)), key=lambda k: -v[k])[:2]; v[i] += 50; v[j] -= 50
 mut(lx, "levexact-val", "LeverageValue", lev2)
 rej = {r[0]: r[1] for r in chk.validate("MatchingTrace", evs)}
 for e in evs:
     print("%-22s %s" % (e["id"], rej.get(e["id"], "accepted")))
 print("machinery:", chk.machinery)
-assert not chk.machinery and all(g["id"] not in rej for g in good) and all(rej.get(k) == v for k, v in want.items()), "self-test failed"
+bad = [(k, v, rej.get(k)) for k, v in want.items() if rej.get(k) != v] + [g["id"] for g in good if g["id"] in rej]
+assert not chk.machinery and not bad, "self-test failed: %s" % bad
 print("OK: %d corrupted events rejected with the expected clause, %d genuine events accepted" % (len(want), len(good)))
 shutil.rmtree(chk.work, ignore_errors=True)
